@@ -24,7 +24,7 @@ var (
 
 // ---- transactions -------------------------------------------------------------------------------------------
 
-const maxSalt = 3
+const maxSalt = 3 * chunkSize // position in block + 3 x slot in the write chunk
 
 var (
 	txMemoOnce sync.Once
